@@ -300,7 +300,10 @@ def _tc_script(rec: Rec, case, f, spec, nontrivial, routes, deep, keeper):
     rec.outcome("roundtrip-ok/len%d" % min(len(data), 18))
     if routes:
         try:
-            a = m.PusTc.from_sp_header(SpacePacketHeader(PacketType.TC, apid, cnt, 0), svc, sub, data, src, ack)
+            # the caller's header arrives with whatever length it carried before (a header re-used for the next telecommand, a
+            # placeholder): the constructor derives the length field from the application data, whatever was there
+            stale = (0, 0x0123, 6, 0xFFFF)[(apid + cnt + len(data)) % 4]
+            a = m.PusTc.from_sp_header(SpacePacketHeader(PacketType.TC, apid, cnt, stale), svc, sub, data, src, ack)
             ra = bytes(a.pack())
             if ra != ref:
                 bad("encode/PusTc.from_sp_header/octets/" + _region(ra, ref), short(ra), short(ref))
@@ -460,7 +463,7 @@ def h_make(m, mode, model):
     if mode == "decoded(bytearray)":
         return m.PusTc.unpack(bytearray(h_ref(model)))
     if mode == "from_sp_header":
-        return m.PusTc.from_sp_header(SpacePacketHeader(PacketType.TC, v["apid"], v["seq_count"], 0), v["service"], v["subservice"],
+        return m.PusTc.from_sp_header(SpacePacketHeader(PacketType.TC, v["apid"], v["seq_count"], 0x0123), v["service"], v["subservice"],
                                       v["app_data"], v["source_id"], v["ack_flags"])
     if mode == "from_composite_fields":
         return m.PusTc.from_composite_fields(
